@@ -75,6 +75,11 @@ def run(ctx):
                           "backends": ["memory", "pebblev2", "memory-poisoned"]},
                          timeout=3000)
     ctx.absorb(res, "accessors", "TestAccessorsReplay")
+    # concurrency-only misbehaviour is not a verdict for this property (its quantifier has no "schedules")
+    obs = res.get("stats", {}).get("observations") or []
+    for o in obs:
+        print("OBSERVATION: property=%s %s" % (ctx.prop, o), flush=True)
+    ctx.coverage["observations"] = len(obs)
     ctx.coverage["behaviours_generated"] = len(behaviours)
     ctx.coverage["store_steps_replayed"] = res.get("steps", 0)
     ctx.assumptions += [
